@@ -91,11 +91,14 @@ func (c *CentroidGrouping) GroupClones(pairs []*ClonePair) []*CloneGroup {
 
 	groupID := 0
 	for len(unclassified) > 0 {
-		// Pick first unclassified fragment as seed
+		// Pick first unclassified fragment (in order of appearance) as seed.
+		// Ranging over the map here would make the result depend on map iteration order.
 		var seed *CodeFragment
-		for f := range unclassified {
-			seed = f
-			break
+		for _, f := range fragments {
+			if unclassified[f] {
+				seed = f
+				break
+			}
 		}
 		delete(unclassified, seed)
 
@@ -118,9 +121,12 @@ func (c *CentroidGrouping) GroupClones(pairs []*ClonePair) []*CloneGroup {
 				break
 			}
 
-			// Check all unclassified fragments
+			// Check all unclassified fragments (in order of appearance, for deterministic results)
 			toAdd := make([]*CodeFragment, 0)
-			for candidate := range unclassified {
+			for _, candidate := range fragments {
+				if !unclassified[candidate] {
+					continue
+				}
 				// First try to use pre-computed similarity
 				var similarity float64
 				key := c.makePairKey(current, candidate)
@@ -157,7 +163,11 @@ func (c *CentroidGrouping) GroupClones(pairs []*ClonePair) []*CloneGroup {
 		if groups[i].Similarity != groups[j].Similarity {
 			return groups[i].Similarity > groups[j].Similarity
 		}
-		return groups[i].Size > groups[j].Size
+		if groups[i].Size != groups[j].Size {
+			return groups[i].Size > groups[j].Size
+		}
+		// Tie-breaker: group ID (creation order) for deterministic results
+		return groups[i].ID < groups[j].ID
 	})
 
 	return groups
